@@ -444,6 +444,7 @@ fn run_block_on(c: &SchedCase) -> ExecOutcome {
     let mut iters = 0u64;
     let mut out: Option<u32> = None;
     let mut rescue = false;
+    let mut parked_verdict = false;
     std::thread::scope(|s| {
         let mut hs = Vec::new();
         for t in 0..k {
@@ -453,11 +454,15 @@ fn run_block_on(c: &SchedCase) -> ExecOutcome {
                 hookrec::set_thread(t + 1, seed);
                 for n in 0..m {
                     let mut wk = None;
-                    for _ in 0..5000 {
+                    let tw = Instant::now();
+                    let mut spins = 0u32;
+                    // (the first poll may be delayed by the delay plan or by a loaded machine)
+                    while spins < 5000 || (tw.elapsed() < Duration::from_secs(2) && !cfg!(miri)) {
                         wk = waker.lock().unwrap().clone();
                         if wk.is_some() {
                             break;
                         }
+                        spins += 1;
                         std::thread::yield_now();
                     }
                     let Some(wk) = wk else { continue };
@@ -552,8 +557,7 @@ fn run_block_on(c: &SchedCase) -> ExecOutcome {
             match verdict {
                 Some(true) => {
                     rescue = true;
-                    let c = if stop_instead { "stop-lost-loop-parked-in-epoll_wait" } else { "wake-lost-loop-parked-in-epoll_wait" };
-                    o.alarm("block_on_polls_after_wake", c, "block_on did not return for 6 s after the last request and the loop thread was parked in epoll_wait".into());
+                    parked_verdict = true;
                 }
                 Some(false) => {
                     rescue = true;
@@ -574,6 +578,21 @@ fn run_block_on(c: &SchedCase) -> ExecOutcome {
     let stop_begin = recs.iter().find(|r| is_h(r, H_STOP_BEGIN)).map(|r| r.seq);
     if recs.iter().filter(|r| is_h(r, H_POLL)).count() == 0 {
         o.alarm("block_on_polls_after_wake", "future-never-polled", "block_on never polled its future".into());
+    }
+    if parked_verdict {
+        // the loop sat in its wait for 6 s with nothing left to consume: which request did it lose?
+        let stop_made = recs.iter().any(|r| is_h(r, H_STOP_END));
+        let wakes_begun = recs.iter().filter(|r| is_h(r, H_WAKE_BEGIN)).count();
+        let wakes_done = recs.iter().filter(|r| is_h(r, H_WAKE_END)).count();
+        let last_wake_end = recs.iter().filter(|r| is_h(r, H_WAKE_END)).map(|r| r.seq).max();
+        let polled_after_last_wake = last_wake_end.map(|e| recs.iter().any(|r| is_h(r, H_POLL) && r.seq > e)).unwrap_or(true);
+        if stop_instead && stop_made {
+            o.alarm("block_on_polls_after_wake", "stop-lost-loop-parked-in-epoll_wait", "block_on did not return for 6 s after stop()+wakeup() had returned and the loop thread was parked in epoll_wait".into());
+        } else if wakes_begun > 0 && wakes_done == wakes_begun && !polled_after_last_wake {
+            o.alarm("block_on_polls_after_wake", "wake-lost-loop-parked-in-epoll_wait", format!("block_on did not poll its future for 6 s after the last of {} wakes had returned and the loop thread was parked in epoll_wait", wakes_done));
+        } else {
+            o.inconclusive.push(format!("block_on did not return within 6 s, but the scripted requests were not all made ({} of {} wakes returned, stop requested: {}): the workload did not get that far", wakes_done, wakes_begun, stop_made));
+        }
     }
     if !rescue {
         match (out, ready) {
